@@ -12,23 +12,59 @@ import porepy as pp
 TOL = F(1, 10 ** 9)
 
 
-def build(case):
+def _construct(case):
+    """Create the grid through the requested documented constructor form.  Returns the grid
+    and the REQUESTED box (lower, upper per axis, exact Fractions)."""
     k = case["kind"]
     if k == "cart":
-        g = pp.CartGrid(np.array(case["dims"]))
+        dims = case["dims"]
+        nd = len(dims)
+        h = case.get("h", [1.0] * nd)
+        low = case.get("lower", [0.0] * nd)
+        ext = [dims[d] * h[d] for d in range(nd)]
+        nx = int(dims[0]) if (nd == 1 and case.get("scalar_nx")) else np.array(dims)
+        ctor = case.get("ctor", "none")
+        if ctor == "none":
+            g = pp.CartGrid(nx)
+            lo, hi = [0.0] * nd, [float(n) for n in dims]
+        elif ctor in ("array", "list"):
+            g = pp.CartGrid(nx, np.array(ext) if ctor == "array" else list(ext))
+            lo, hi = [0.0] * nd, ext
+        else:  # documented dictionary form; "dict_nomin" leaves ymin / zmin to their default 0
+            phys = {}
+            lo, hi = [], []
+            for d, ax in enumerate("xyz"[:nd]):
+                if ctor == "dict_nomin" and d > 0:
+                    lo.append(0.0)
+                else:
+                    phys[ax + "min"] = low[d]
+                    lo.append(low[d])
+                phys[ax + "max"] = lo[d] + ext[d]
+                hi.append(lo[d] + ext[d])
+            g = pp.CartGrid(nx, phys)
     elif k == "tensor":
-        g = pp.TensorGrid(*[np.array(c, dtype=float) for c in case["coords"]])
+        cs = [np.array(c, dtype=float) for c in case["coords"]]
+        g = pp.TensorGrid(*cs)
+        lo, hi = [float(c[0]) for c in cs], [float(c[-1]) for c in cs]
     elif k == "tri":
         g = pp.StructuredTriangleGrid(np.array(case["dims"]))
+        lo, hi = [0.0, 0.0], [float(n) for n in case["dims"]]
     elif k == "tet":
         g = pp.StructuredTetrahedralGrid(np.array(case["dims"]))
+        lo, hi = [0.0] * 3, [float(n) for n in case["dims"]]
     else:
         raise ValueError(k)
+    return g, [F(x) for x in lo], [F(x) for x in hi]
+
+
+def build(case):
+    g, rlo, rhi = _construct(case)
     nd = g.dim
+    span = [[float(g.nodes[d].min()) for d in range(nd)], [float(g.nodes[d].max()) for d in range(nd)]]
+    measure = F(1)
+    for d in range(len(rlo)):
+        measure *= rhi[d] - rlo[d]
     lo, hi = g.nodes.min(axis=1), g.nodes.max(axis=1)
-    measure = 1.0
-    for d in range(nd):
-        measure *= float(hi[d] - lo[d])
     interior = [i for i in range(g.num_nodes)
                 if all(lo[d] < g.nodes[d, i] < hi[d] for d in range(nd))]
     mode = case.get("perturb", "none")
@@ -36,12 +72,11 @@ def build(case):
     if case.get("taper") and nd == 3:
         # (x, y, z) -> (x (1 + z/8), y (1 + z/8), z): planes stay planes, boxes become frusta
         # (planar faces, cells without central symmetry); dyadic coordinates stay dyadic
-        z0, z1 = float(lo[2]), float(hi[2])
         s = 1.0 + g.nodes[2] / 8.0
         g.nodes[0] *= s
         g.nodes[1] *= s
-        prim = lambda z: (1.0 + z / 8.0) ** 3 * 8.0 / 3.0
-        measure = float(hi[0] - lo[0]) * float(hi[1] - lo[1]) * (prim(z1) - prim(z0))
+        prim = lambda z: (1 + z / 8) ** 3 * F(8, 3)
+        measure = (rhi[0] - rlo[0]) * (rhi[1] - rlo[1]) * (prim(rhi[2]) - prim(rlo[2]))
     targets = interior if mode == "interior" else (list(range(g.num_nodes)) if mode == "all" else [])
     for j, i in enumerate(targets):
         for d in range(nd):
@@ -51,7 +86,13 @@ def build(case):
             f = f % g.num_faces
             a, b = g.face_nodes.indptr[f], g.face_nodes.indptr[f + 1]
             g.face_nodes.indices[a:b] = g.face_nodes.indices[a:b][::-1].copy()
-    return g, (measure if mode != "all" else None)
+    # exact rescaling by powers of two per axis (isotropic or thin layers)
+    for d, e in enumerate(case.get("scale_exp", [])[:nd]):
+        g.nodes[d] *= 2.0 ** e
+        measure *= F(2) ** e
+    req = {"lo": [str(x) for x in rlo], "hi": [str(x) for x in rhi], "span": span,
+           "nd_req": len(rlo)}
+    return g, (measure if mode != "all" else None), req
 
 
 def qz(x):
@@ -88,7 +129,10 @@ class C19(Prop):
         "cell centres of real Cartesian / tensor / triangle grids (1-D, 2-D, dyadic node "
         "perturbations, faces with reversed node order to reach the fallback decision) in Q and "
         "compares with relative tolerance 1e-9.  3-D grids (Cartesian, tensor, tetrahedral, "
-        "perturbed, boxes tapered to frusta) are covered by the exact-fractions oracle only "
+        "perturbed, boxes tapered to frusta, all rescaled by powers of two down to 2^-20 and to thin "
+        "layers) are covered by the exact-fractions oracle only; every oracle comparison is relative "
+        "to the terms of the identity, and the grid must cover the domain REQUESTED from the "
+        "constructor (node span and sum of volumes) "
         "(all identities of the property, incl. positive volumes summing to the domain measure).")
     level_note = (
         "NOT proved: any 3-D statement (C19_3d_normals_sum_zero etc. are not in the development; "
@@ -101,7 +145,11 @@ class C19(Prop):
     technique = ("Coq proof (edge-wise polynomial identities by ring/field + permutation/telescoping "
                  "argument over balanced edge sets) + vm_compute execution correspondence in Q; "
                  "exact-fractions oracle for 1-3-D")
-    rule = ("random grids: CartGrid / TensorGrid (dyadic spacings) in 1-3-D, StructuredTriangleGrid, "
+    rule = ("random grids: CartGrid through every documented constructor form (physdims None / array / "
+            "list / dict with non-zero lower bounds / dict with defaulted ymin, zmin; scalar or array nx "
+            "in 1-D) and TensorGrid (dyadic spacings) in 1-3-D, checked against the REQUESTED box (node "
+            "span, sum of volumes); exact rescaling of the node coordinates by powers of two 2^-20..2^10, "
+            "isotropic and anisotropic (thin layers), in 1-D, 2-D and 3-D; StructuredTriangleGrid, "
             "StructuredTetrahedralGrid; 3-D boxes tapered to frusta (planar faces, no central symmetry); "
             "node perturbations by dyadic offsets (< 1/4 of the smallest "
             "spacing) of interior nodes (domain measure preserved) or of all nodes; 2-D stream with "
@@ -119,43 +167,55 @@ class C19(Prop):
     def generate(self, rng, n, tier):
         big = tier != "quick"
         m = 5 if big else 3
+        hs = [0.5, 1.0, 1.0, 1.5, 2.0]
+
+        def cart(dims):
+            nd = len(dims)
+            c = {"kind": "cart", "dims": dims,
+                 "ctor": rng.choice(["none", "array", "list", "dict", "dict", "dict", "dict_nomin"]),
+                 "h": [rng.choice(hs) for _ in range(nd)],
+                 "lower": [float(rng.choice([-2, -1, 1, 1, 2, 3, 0])) + rng.choice([0.0, 0.5])
+                           for _ in range(nd)]}
+            if nd == 1:
+                c["scalar_nx"] = rng.random() < 0.4
+            return c
+
         for i in range(n):
             r = rng.random()
-            sp = [0.5, 1.0, 1.0, 1.5, 2.0]
-            if r < 0.12:
-                case = {"kind": "cart", "dims": [rng.randint(1, 3 * m)]}
+            if r < 0.14:
+                case = cart([rng.randint(1, 3 * m)])
             elif r < 0.22:
                 xs = [float(rng.randint(-4, 4))]
                 for _ in range(rng.randint(1, 2 * m)):
-                    xs.append(xs[-1] + rng.choice(sp))
+                    xs.append(xs[-1] + rng.choice(hs))
                 case = {"kind": "tensor", "coords": [xs]}
             elif r < 0.40:
-                case = {"kind": "cart", "dims": [rng.randint(1, m + 1), rng.randint(1, m)]}
-            elif r < 0.55:
+                case = cart([rng.randint(1, m + 1), rng.randint(1, m)])
+            elif r < 0.52:
                 cs = []
                 for _ in range(2):
                     xs = [float(rng.randint(-4, 4))]
                     for _ in range(rng.randint(1, m)):
-                        xs.append(xs[-1] + rng.choice(sp))
+                        xs.append(xs[-1] + rng.choice(hs))
                     cs.append(xs)
                 case = {"kind": "tensor", "coords": cs}
-            elif r < 0.75:
+            elif r < 0.68:
                 case = {"kind": "tri", "dims": [rng.randint(1, m), rng.randint(1, m)]}
-            elif r < 0.83:
-                case = {"kind": "cart", "dims": [rng.randint(1, 3), rng.randint(1, 3), rng.randint(1, 2)]}
+            elif r < 0.82:
+                case = cart([rng.randint(1, 3), rng.randint(1, 3), rng.randint(1, 2)])
             elif r < 0.90:
                 cs = []
                 for _ in range(3):
-                    xs = [0.0]
+                    xs = [float(rng.randint(-2, 2))]
                     for _ in range(rng.randint(1, 2)):
-                        xs.append(xs[-1] + rng.choice(sp))
+                        xs.append(xs[-1] + rng.choice(hs))
                     cs.append(xs)
                 case = {"kind": "tensor", "coords": cs}
             else:
                 case = {"kind": "tet", "dims": [rng.randint(1, 2), rng.randint(1, 2), rng.randint(1, 2)]}
+            nd = len(case.get("dims", case.get("coords", [])))
             case["perturb"] = rng.choice(["none", "interior", "interior", "all"])
-            if case["kind"] != "tet" and len(case.get("dims", case.get("coords", []))) == 3 \
-                    and rng.random() < 0.6:
+            if case["kind"] != "tet" and nd == 3 and rng.random() < 0.6:
                 case["perturb"] = "none"
                 case["taper"] = True
             # smallest spacing is 1/2; offsets are multiples of 1/64 with |.| <= 7/64 < 1/8
@@ -163,11 +223,32 @@ class C19(Prop):
             case["pert"] = [rng.randint(-7, 7) for _ in range(24)]
             case["swap_faces"] = ([rng.randint(0, 10 ** 6) for _ in range(rng.randint(1, 2))]
                                   if rng.random() < 0.12 else [])
+            # exact rescaling by powers of two, 2^-20 .. 2^10: none / isotropic / anisotropic
+            # (thin layers).  Aspect ratios stay <= 2^10: beyond ~1e5 the code's orientation
+            # check 2/3 (|S| < 1e-5 mean(area)^2) sends a valid thin 2-D grid to the legacy
+            # fallback, a tolerance band the property does not cover.  Perturbed hexahedra
+            # (non-planar faces) are only rescaled isotropically: the sub-tetrahedron
+            # decomposition of twisted faces is not affine invariant.
+            sm = rng.random()
+            twisted = nd == 3 and case["kind"] != "tet" and case["perturb"] != "none"
+            if sm < 0.2:
+                case["scale_exp"] = [0, 0, 0]
+            elif sm < 0.55 or twisted:
+                e = rng.randint(-20, 10)
+                case["scale_exp"] = [e, e, e]
+            elif sm < 0.8:
+                e = rng.randint(-10, 10)
+                ex = [e, e, e]
+                ex[rng.randint(0, max(nd - 1, 1))] = e - rng.randint(3, 10)
+                case["scale_exp"] = ex
+            else:
+                e = rng.randint(-10, 10)
+                case["scale_exp"] = [e - rng.randint(0, 10) for _ in range(3)]
             yield case
 
     # ------------------------------------------------------------------ implementation
     def run_impl(self, case):
-        g, measure = build(case)
+        g, measure, req = build(case)
         with warnings.catch_warnings(record=True) as w:
             warnings.simplefilter("always")
             g.compute_geometry()
@@ -180,7 +261,8 @@ class C19(Prop):
             "fn_indptr": [int(x) for x in g.face_nodes.indptr],
             "cf": [[int(r), int(c), int(v)] for r, c, v in zip(cf.row, cf.col, cf.data)],
             "cf_indices": [int(x) for x in g.cell_faces.indices],
-            "fallback": bool(fallback), "measure": measure,
+            "fallback": bool(fallback),
+            "measure": None if measure is None else str(F(measure)), "req": req,
             "areas": g.face_areas.tolist(), "fc": g.face_centers.T.tolist(),
             "fnrm": g.face_normals.T.tolist(), "vol": g.cell_volumes.tolist(),
             "cc": g.cell_centers.T.tolist(),
@@ -188,10 +270,19 @@ class C19(Prop):
         key = f"dim{g.dim}" + ("_fallback" if fallback else "") + \
               ("" if case["perturb"] == "none" else "_pert")
         self.stats[key] = self.stats.get(key, 0) + 1
+        ex = case.get("scale_exp", [0, 0, 0])[:g.dim]
+        sk = "scale_" + ("unit" if not any(ex) else ("iso" if len(set(ex)) == 1 else "aniso")) + \
+             ("_small" if min(ex) <= -11 else "")
+        self.stats[sk] = self.stats.get(sk, 0) + 1
+        if case["kind"] == "cart":
+            ck = "ctor_" + case.get("ctor", "none") + ("_scalar_nx" if case.get("scalar_nx") else "")
+            self.stats[ck] = self.stats.get(ck, 0) + 1
         return out
 
     # ------------------------------------------------------------------ oracle
     def oracle(self, case, res):
+        """All comparisons are relative to the magnitude of the terms of the identity at hand
+        (|sum - rhs| <= 1e-9 (sum |terms| + |rhs|)), so every grid is judged at its own scale."""
         dim, nc, nf = res["dim"], res["nc"], res["nf"]
         fr = lambda v: [F(x) for x in v]
         fc = [fr(p) for p in res["fc"]]
@@ -199,39 +290,56 @@ class C19(Prop):
         cc = [fr(p) for p in res["cc"]]
         vol = fr(res["vol"])
         ar = fr(res["areas"])
-        scale = max([abs(x) for p in fc for x in p] + [F(1)])
+        nodes = [fr(p) for p in res["nodes"]]
         dotp = lambda a, b: sum(x * y for x, y in zip(a, b))
+        adot = lambda a, b: sum(abs(x * y) for x, y in zip(a, b))
+
+        def off(terms, rhs):
+            return abs(sum(terms) - rhs) > TOL * (sum(abs(t) for t in terms) + abs(rhs))
+
+        # the grid covers the REQUESTED domain (checked on the nodes as constructed)
+        req = res["req"]
+        if req["nd_req"] == dim:
+            for d in range(dim):
+                if F(req["span"][0][d]) != F(req["lo"][d]) or F(req["span"][1][d]) != F(req["hi"][d]):
+                    return (f"axis {d}: nodes span [{req['span'][0][d]}, {req['span'][1][d]}] but the "
+                            f"requested domain is [{float(F(req['lo'][d]))}, {float(F(req['hi'][d]))}]")
+        else:
+            return f"grid of dimension {dim} for a {req['nd_req']}-d request"
         # planar faces?  (3-D hexahedra with perturbed nodes have non-planar faces; for those
         # only closedness, outwardness and volumes are demanded)
         planar_face = [True] * nf
         if dim == 3:
-            nodes = [fr(p) for p in res["nodes"]]
             for f in range(nf):
                 ids = res["fn_indices"][res["fn_indptr"][f]:res["fn_indptr"][f + 1]]
                 for i in ids:
                     d = [a - b for a, b in zip(nodes[i], fc[f])]
-                    if abs(dotp(d, nr[f])) > TOL * scale ** 3:
+                    mag = sum((abs(a) + abs(b)) * abs(n) for a, b, n in zip(nodes[i], fc[f], nr[f]))
+                    if abs(dotp(d, nr[f])) > TOL * mag:
                         planar_face[f] = False
         for f in range(nf):
             n2 = dotp(nr[f], nr[f])
-            if planar_face[f] and abs(n2 - ar[f] ** 2) > TOL * (1 + n2):
+            if not n2 > 0:
+                return f"face {f}: zero normal"
+            if planar_face[f] and abs(n2 - ar[f] ** 2) > TOL * n2:
                 return f"face {f}: |normal|^2 = {float(n2)} but area^2 = {float(ar[f] ** 2)}"
         for c in range(nc):
-            if not vol[c] > 0:
-                return f"cell {c}: volume {float(vol[c])} is not positive"
+            if not vol[c] > 0:   # also catches nan
+                return f"cell {c}: volume {res['vol'][c]} is not positive"
         if res["measure"] is not None:
             tot = sum(vol)
-            if abs(tot - F(res["measure"])) > TOL * 1000 * (1 + tot):
-                return f"cell volumes sum to {float(tot)}, domain measure is {res['measure']}"
+            meas = F(res["measure"])
+            if abs(tot - meas) > TOL * 1000 * meas:
+                return f"cell volumes sum to {float(tot)}, measure of the requested domain is {float(meas)}"
         per_cell = {}
         for f, c, s in res["cf"]:
             per_cell.setdefault(c, []).append((f, s))
         for c in range(nc):
             ents = per_cell.get(c, [])
-            sn = [sum(s * nr[f][k] for f, s in ents) for k in range(3)]
-            amax = max([ar[f] for f, _ in ents] + [F(1)])
-            if any(abs(x) > TOL * 100 * amax for x in sn):
-                return f"cell {c}: signed face normals sum to {[float(x) for x in sn]}"
+            for k in range(3):
+                if off([s * nr[f][k] for f, s in ents], 0):
+                    return (f"cell {c}: signed face normals, component {k}, sum to "
+                            f"{float(sum(s * nr[f][k] for f, s in ents))}")
             for f, s in ents:
                 out = s * dotp(nr[f], [a - b for a, b in zip(fc[f], cc[c])])
                 if not out > 0:
@@ -239,15 +347,15 @@ class C19(Prop):
                             f"cell (s*n.(xf-xc) = {float(out)})")
             if not all(planar_face[f] for f, _ in ents):
                 continue
-            gs = sum(s * dotp(fc[f], nr[f]) for f, s in ents)
-            big = scale ** dim * 1000
-            if abs(gs - dim * vol[c]) > TOL * big:
-                return f"cell {c}: sum +-x_f.n_f = {float(gs)} but dim*|K| = {float(dim * vol[c])}"
+            gterms = [s * fc[f][j] * nr[f][j] for f, s in ents for j in range(3)]
+            if off(gterms, dim * vol[c]):
+                return (f"cell {c}: sum +-x_f.n_f = {float(sum(gterms))} but dim*|K| = "
+                        f"{float(dim * vol[c])}")
             for k in range(3):
-                lhs = sum(s * dotp(fc[f], nr[f]) * fc[f][k] for f, s in ents)
+                cterms = [s * fc[f][j] * nr[f][j] * fc[f][k] for f, s in ents for j in range(3)]
                 rhs = (dim + 1) * vol[c] * cc[c][k]
-                if abs(lhs - rhs) > TOL * big * scale:
-                    return (f"cell {c}: sum +-(x_f.n_f) x_f[{k}] = {float(lhs)} but "
+                if off(cterms, rhs):
+                    return (f"cell {c}: sum +-(x_f.n_f) x_f[{k}] = {float(sum(cterms))} but "
                             f"(dim+1)|K| x_c[{k}] = {float(rhs)}")
         return None
 
